@@ -32,7 +32,8 @@ structure Ten where
 deriving DecidableEq, Inhabited
 
 def Ten.bad (msg : String) : Ten := ⟨[], [], msg⟩
-def joinErr (a b : String) : String := if a = "" then b else if b = "" then a else a ++ "; " ++ b
+/-- keep the FIRST disagreement only (later ones are consequences), bounded in length -/
+def joinErr (a b : String) : String := if a = "" then (b.take 400).toString else a
 
 def showTen (t : Ten) : String :=
   showShape t.shape ++ ":" ++ showInts t.data ++ (if t.err = "" then "" else "!{" ++ t.err ++ "}")
